@@ -143,6 +143,7 @@ var (
 	ErrTooLarge       = errors.New("ref: model exceeds the configured bound")
 	ErrUnsupported    = errors.New("ref: construct outside the reference fragment")
 	ErrEval           = errors.New("ref: function evaluation error")
+	ErrBudget         = errors.New("ref: step budget exhausted")
 )
 
 // ---------------------------------------------------------------------------
@@ -452,6 +453,10 @@ func allBound(vs map[string]bool, e env) bool {
 // body) under which every literal holds in m. neg is the model negated atoms
 // are judged against (the completed lower strata; callers pass the same model
 // when stratification guarantees it is complete for the negated predicates).
+// stepBudget, when positive, is decremented by every search step of Solve;
+// Eval sets it from Options.MaxSteps (single-threaded use per process).
+var stepBudget int64
+
 func Solve(body []gen.LitV, m *Model, neg *Model) ([]env, error) {
 	type state struct {
 		e    env
@@ -466,6 +471,15 @@ func Solve(body []gen.LitV, m *Model, neg *Model) ([]env, error) {
 		steps++
 		if steps > 2_000_000 {
 			return ErrTooLarge
+		}
+		if stepBudget > 0 {
+			stepBudget--
+			if stepBudget == 0 {
+				stepBudget = -1
+			}
+		}
+		if stepBudget < 0 {
+			return ErrBudget
 		}
 		// pick a ready literal: prefer cheap deterministic ones
 		pick := -1
@@ -861,6 +875,7 @@ func isDo(c gen.ClauseV) bool {
 
 type Options struct {
 	MaxFacts int
+	MaxSteps int64 // 0 = unlimited
 }
 
 type Result struct {
@@ -877,6 +892,8 @@ func Eval(p Program, o Options) (*Result, error) {
 	if o.MaxFacts == 0 {
 		o.MaxFacts = 3000
 	}
+	stepBudget = o.MaxSteps
+	defer func() { stepBudget = 0 }()
 	heads := map[string]bool{}
 	for _, r := range p.Rules {
 		heads[pk(r.Head.Pred, len(r.Head.Args))] = true
@@ -963,7 +980,7 @@ func Eval(p Program, o Options) (*Result, error) {
 					if res.Model.Add(d.Fact) {
 						added = true
 						if res.Model.Size() > o.MaxFacts {
-							return nil, ErrTooLarge
+							return res, ErrTooLarge // partial model, for diagnosis only
 						}
 					}
 				}
